@@ -414,3 +414,54 @@ def replay_file(module, path):
     print("reported clause:", d["clause"], d.get("detail", "")[:500])
     print("mismatches now:", mm)
     return 1 if mm else 0
+
+
+def second_pass(drive_fn, *args):
+    """Run a deterministic driver twice in one process.  The second pass meets whatever module-level state the
+    first one left behind in the library (memo tables, shared scratch objects, values bound at first use).  Records
+    of the second pass whose outcome differs from the first pass are added (marked second_pass) and judged by the
+    specification like any other; identical ones were already judged.  Returns (records, number re-observed, differing)."""
+    first = drive_fn(*args)
+    extra = None
+    if isinstance(first, tuple):
+        first, extra = first[0], first[1:]
+    again = drive_fn(*args)
+    if isinstance(again, tuple):
+        again = again[0]
+    out = list(first)
+    nid = max([r["id"] for r in first] + [0])
+    ntid = max([r.get("tid", 0) for r in first] + [0])
+    differing = 0
+    if len(again) == len(first):
+        # multi-step traces are taken whole when any step differs
+        bad_tids = set()
+        for a, b in zip(first, again):
+            if a["op"] != b["op"] or a["in"] != b["in"] or a["out"] != b["out"] or a.get("chain") != b.get("chain"):
+                differing += 1
+                if "tid" in b:
+                    bad_tids.add(b["tid"])
+        tidmap = {}
+        for a, b in zip(first, again):
+            differs = a["op"] != b["op"] or a["in"] != b["in"] or a["out"] != b["out"] or a.get("chain") != b.get("chain")
+            if ("tid" in b and b["tid"] in bad_tids) or ("tid" not in b and differs):
+                c = dict(b)
+                nid += 1
+                c["id"] = nid
+                c["second_pass"] = True
+                if "tid" in c:
+                    if c["tid"] not in tidmap:
+                        ntid += 1
+                        tidmap[c["tid"]] = ntid
+                    c["tid"] = tidmap[c["tid"]]
+                out.append(c)
+    else:
+        differing = abs(len(again) - len(first))
+        for b in again:
+            c = dict(b)
+            nid += 1
+            c["id"] = nid
+            c["second_pass"] = True
+            if "tid" in c:
+                c["tid"] = c["tid"] + ntid
+            out.append(c)
+    return (out, len(again), differing) if extra is None else (out, len(again), differing) + tuple(extra)
